@@ -17,7 +17,7 @@ def replay(ctx, path):
     env = dict(os.environ, VH_PROP=ctx.prop)
     p = subprocess.run([ctx.vh_path, "replay", case], capture_output=True, text=True, cwd=ctx.scratch, env=env)
     res = None
-    for line in p.stdout.splitlines():
+    for line in p.stdout.split("\n"):
         if line.startswith("RESULT "):
             res = json.loads(line[7:])
         else:
@@ -117,6 +117,11 @@ def run_C13(ctx):
     ctx.cov["keywords_accepted_by_real_scanner"] = res.get("extra", {}).get("keywords_accepted")
     st = ctx.vh("scan-replay", r.out, "selftest")
     ctx.selftest(st["n_mismatch"] == st["cases"], "C13 G: every corrupted expectation is reported")
+    # the same exploration from directive starts reached through a prefix that leaves other entries on the scanner's stacks
+    for cx in (("tag", "explicit") if ctx.quick else ("respBody", "reqBody", "tag", "method", "typeBody", "explicit")):
+        rx = ctx.tlc("MC_C13", cfg="MC_C13_%s.cfg" % cx, timeout=900, label="MC_C13(%s)" % cx)
+        resx = ctx.vh("scan-replay", rx.out, env={"VH_DISTINCT": "len"})
+        ctx.absorb(resx, "G:scan-replay(keywords, context %s)" % cx)
     # directive starts behind a Description text are found by a look-ahead over the rest of the line (a second recogniser)
     rd = ctx.tlc("MC_C12", cfg="MC_C12_desc.cfg" if ctx.quick else "MC_C12_desc_thorough.cfg", timeout=1800, label="MC_C12(description)")
     resd = ctx.vh("scan-replay", rd.out, env={"VH_DISTINCT": "len"})
@@ -262,7 +267,7 @@ def run_C09(ctx):
 def _docs(ctx, layouts, own=True):
     """own: the check owns the document model (C02) -> full bound; otherwise the model is an input generator"""
     if own:
-        cfg = "MC_C02_quick.cfg" if ctx.quick else "MC_C02_thorough.cfg"
+        cfg = "MC_C02_gen.cfg" if ctx.quick else "MC_C02_thorough.cfg"
     else:
         cfg = "MC_C02_gen.cfg" if ctx.quick else "MC_C02_quick.cfg"
     r = ctx.tlc("MC_C02", cfg=cfg, timeout=3300)
@@ -385,6 +390,9 @@ def run_C16(ctx):
     rs = ctx.tlc("MC_C10sites", cfg="MC_C10sites.cfg", timeout=900)
     res4 = ctx.vh("serial-replay", r2.out, "toks:" + rs.out, timeout=3000)
     ctx.absorb(res4, "G:serial-replay(paste sites)")
+    rm = ctx.tlc("MC_C02", cfg="MC_C02_gen.cfg", timeout=3300)
+    res5 = ctx.vh("serial-replay", r2.out, "model:" + rm.out, env={"VH_SRC_STEP": "5" if ctx.quick else "1"}, timeout=3300)
+    ctx.absorb(res5, "G:serial-replay(block model)")
     ctx.cov["exhaustive"] = True
     st = ctx.vh("serial-replay", r2.out, "docs", "selftest")
     ctx.selftest(st["n_mismatch"] >= 0.4 * st["cases"], "C16 G: altered reference bytes are noticed")
@@ -475,6 +483,14 @@ def run_C06(ctx):
     # histories of builds in one process over files that change between builds
     res4 = ctx.vh("c06-history", ctx.seed, 60 if ctx.quick else 600, timeout=600)
     ctx.absorb(res4, "G:c06-history")
+    # builds of different projects running at the same time must give what each gives alone (package-level state shared
+    # between builds shows up here; serialisation and the race detector are C18's)
+    rmod = ctx.tlc("MC_C02", cfg="MC_C02_gen.cfg", timeout=3300)
+    tpc = os.path.join(ctx.scratch, "c06-conc.ndjson")
+    resc = ctx.vh("conc-stress", "model:" + rmod.out, ctx.seed, 6 if ctx.quick else 60, 16, tpc, env={"VH_SRC_STEP": "7"}, timeout=3000)
+    keep = [m for m in (resc.get("mismatches") or []) if m["sig"].startswith("c18:independent")]
+    ctx.absorb(dict(resc, mismatches=[dict(m, sig="c06:concurrent-build:" + m["sig"]) for m in keep], n_mismatch=len(keep), nontrivial=resc.get("cases", 0)),
+               "V:conc-stress(concurrent builds)")
     # M+G: every history of builds over changing files and a process-wide pool of option values (MC_C06)
     r5 = ctx.tlc("MC_C06", cfg="MC_C06_quick.cfg" if ctx.quick else "MC_C06_thorough.cfg", timeout=1800)
     res5 = ctx.vh("c06-hist-replay", r5.out, timeout=3000)
